@@ -167,6 +167,10 @@ func WriteStats() {
 	}
 	b, _ := json.Marshal(outs)
 	os.MkdirAll(filepath.Dir(path), 0755)
+	if os.Getenv("VERIF_STATS_PER_PROCESS") != "" {
+		// native fuzzing: the coordinator and every worker process report on their own
+		path = fmt.Sprintf("%s.%d", path, os.Getpid())
+	}
 	tmp := path + ".tmp"
 	if err := os.WriteFile(tmp, b, 0644); err == nil {
 		os.Rename(tmp, path)
